@@ -344,6 +344,12 @@ example : get_equinox_solstice mkEpoch (fun _ => 0) 1 2000 "spring" = .ok (some 
   simp only [season_index, if_true, hj, m1, loopFuel, season_step, hc, add_zero, sub_zero, plt, pabs]
   norm_num
 
+/-- The constructor `Epoch(jde)` of the model (store, `get_full_date()`, `_compute_jde()`), over ℝ, keeps
+    every `jde ≥ 0` — the real-number form of C02's `set_jde_exact`; it is what removes the constructor
+    hypothesis from `season_post_model`. -/
+theorem epoch_constructor_exact (j : ℝ) (hj : 0 ≤ j) : mkEpoch j = .ok j :=
+  Pymeeus.Refine.EpochR.mkEpoch_exact j hj
+
 /-! ## Equation of time -/
 
 /-- The mean longitude used by `equation_of_time` is Meeus' L0 (28.2) — every coefficient, written
@@ -979,5 +985,70 @@ theorem rts_two_passes (lon lat a1 d1 a2 d2 a3 d3 h0 dt th0 c r t s : ℝ)
       rts_iter lon lat a1 d1 a2 d2 a3 d3 h0 dt th0 s1 = .ok (n0, n1, n2) ∧
       r = n1 * 24 ∧ t = n0 * 24 ∧ s = n2 * 24 :=
   rts_times_ok h
+
+/-- At a pole (of the observer or of the body's middle declination: `cos φ · cos δ2 = 0`) the function
+    raises `ZeroDivisionError`, before any test — for all other arguments. -/
+theorem rts_pole_zero_division (lon lat a1 d1 a2 d2 a3 d3 h0 dt th0 : ℝ)
+    (h : Real.cos (lat * (Real.pi / 180)) * Real.cos (d2 * (Real.pi / 180)) = 0) :
+    times_rise_transit_set lon lat a1 d1 a2 d2 a3 d3 h0 dt th0 = .error .zeroDivisionError := by
+  have hd : peq (pcos (pradians lat) * pcos (pradians d2)) 0.0 = true := by
+    unfold peq pcos pradians; simp only [decide_eq_true_eq]; norm_num
+    exact mul_eq_zero.mp h
+  unfold times_rise_transit_set rts_cosH0
+  simp only [hd, if_true]
+
+/-- The start estimates are where the body, at its middle position, IS at altitude `h0`: when times are
+    attempted (`|cos H0| ≤ 1`), the altitude formula at the hour angle `H0 = acos(cos H0)` gives exactly
+    `sin h0` (so do `−H0`, the rise, and `+H0`, the set: `cos` is even). -/
+theorem rts_start_at_h0 (lat d2 h0 c : ℝ) (hc : rts_cosH0 lat d2 h0 = .ok c) (h1 : |c| ≤ 1) :
+    Spec.SunEvents.sinAltitude (lat * (Real.pi / 180)) (d2 * (Real.pi / 180)) (Real.arccos c) =
+      Real.sin (h0 * (Real.pi / 180)) ∧
+    Spec.SunEvents.sinAltitude (lat * (Real.pi / 180)) (d2 * (Real.pi / 180)) (-Real.arccos c) =
+      Real.sin (h0 * (Real.pi / 180)) := by
+  unfold rts_cosH0 at hc
+  simp only at hc
+  split_ifs at hc with hd
+  simp only [Except.ok.injEq] at hc
+  have hden : Real.cos (lat * (Real.pi / 180)) * Real.cos (d2 * (Real.pi / 180)) ≠ 0 := by
+    unfold peq pcos pradians at hd; norm_num at hd; exact mul_ne_zero hd.1 hd.2
+  unfold Spec.SunEvents.sinAltitude
+  rw [Real.cos_neg, Real.cos_arccos (neg_le_of_abs_le h1) (le_of_abs_le h1), ← hc]
+  unfold psin pcos pradians
+  have key : ∀ (a b x : ℝ), a * b ≠ 0 → a * b * (x / (a * b)) = x := fun a b x h => mul_div_cancel₀ x h
+  rw [key _ _ _ hden]
+  constructor <;> ring
+
+/-- The transit correction of one pass is `Δm0 = −H/360` with `H` the hour angle
+    `θ0 + 360.985647·m0 − L − α(n)` of the interpolated position, brought into [−180°, 180°] by whole
+    turns (sidereal rate, sign of the longitude and of the correction as coded), for all inputs. -/
+theorem rts_transit_correction (lon lat a1 d1 a2 d2 a3 d3 h0 dt th0 m0 m1 m2 n0 n1 n2 : ℝ)
+    (h : rts_iter lon lat a1 d1 a2 d2 a3 d3 h0 dt th0 (m0, m1, m2) = .ok (n0, n1, n2)) :
+    ∃ H : ℝ, -180 ≤ H ∧ H ≤ 180 ∧
+      (∃ k : ℤ, H = th0 + 360.985647 * m0 - lon - rts_interpol (m0 + dt / 86400) a1 a2 a3 - 360 * k) ∧
+      n0 = m0 - H / 360 := by
+  unfold rts_iter at h
+  simp only at h
+  split at h <;> try (simp at h; done)
+  split at h <;> try (simp at h; done)
+  split at h <;> try (simp at h; done)
+  split at h <;> try (simp at h; done)
+  simp only [Except.ok.injEq, Prod.mk.injEq] at h
+  obtain ⟨h0', _, _⟩ := h
+  obtain ⟨hl, hu, k, hk⟩ := wrap180_range
+    (aSub (aSub (aAdd th0 (360.985647 * m0)) lon) (rts_interpol (m0 + dt / 86400.0) a1 a2 a3))
+  refine ⟨_, hl, hu, ?_, by rw [← h0']; norm_num; ring⟩
+  -- the Angle arithmetic is congruent to the plain expression
+  unfold aSub aAdd aNeg at hk ⊢
+  obtain ⟨k1, e1⟩ := aReduce_congr (th0 + 360.985647 * m0)
+  obtain ⟨k2, e2⟩ := aReduce_congr (-lon)
+  obtain ⟨k3, e3⟩ := aReduce_congr (aReduce (th0 + 360.985647 * m0) + aReduce (-lon))
+  obtain ⟨k4, e4⟩ := aReduce_congr (-rts_interpol (m0 + dt / 86400.0) a1 a2 a3)
+  obtain ⟨k5, e5⟩ := aReduce_congr (aReduce (aReduce (th0 + 360.985647 * m0) + aReduce (-lon)) +
+    aReduce (-rts_interpol (m0 + dt / 86400.0) a1 a2 a3))
+  refine ⟨k + k1 + k2 + k3 + k4 + k5, ?_⟩
+  rw [hk, e5, e4, e3, e2, e1]
+  push_cast
+  norm_num
+  ring
 
 end Pymeeus.C14
